@@ -351,6 +351,15 @@ impl Report {
 
         let rdir = format!("{}/replays/{}", dir, self.prop);
         let mut replay_paths = Vec::new();
+        // replay files of an earlier run of this tier say nothing about this one
+        if let Ok(rd) = std::fs::read_dir(&rdir) {
+            let prefix = format!("{}-", self.tier.name());
+            for e in rd.flatten() {
+                if e.file_name().to_string_lossy().starts_with(&prefix) {
+                    let _ = std::fs::remove_file(e.path());
+                }
+            }
+        }
         if !new_violations.is_empty() {
             let _ = std::fs::create_dir_all(&rdir);
         }
